@@ -70,6 +70,22 @@ def run(chk, tier):
     chk.expect(len(gate) == 1 and "NoPresentationContext" in H.show(gate[0][3], 6), "pc-query", "check_presentation_contexts", "transcode-gate",
                "if never_transcode || !file_ts.can_decode_all() { fail }", [H.show(g[2], 5) for g in gate])
 
+    # the exact form of each test (operators included): the SOP class tests, the transfer syntax tests and the transcoding gate
+    def norm(t):
+        return re.sub(r"dicom_dictionary_std::uids::|core::ops::", "", t)
+    gate_t = [norm(H.show(g[2], 5)) for g in gate]
+    chk.expect(gate_t == ["(never_transcode Or Not(file_ts.can_decode_all()))"], "pc-query", "check_presentation_contexts", "transcode-gate/operators",
+               "never_transcode || !file_ts.can_decode_all()", gate_t)
+    sop_tests = sorted(norm(H.show(y, 5)) for y in H.walk(h["body"]) if H.kind(y) == "bin" and y[2] in ("And", "Or") and "ignore_sop_class" in H.show(y, 5) and "abstract_syntax" in H.show(y, 5))
+    want_sop = sorted(["(ignore_sop_class Or (pc.abstract_syntax Eq file.sop_class_uid))"] * 3 + ["(Not(ignore_sop_class) And (pc.abstract_syntax Ne file.sop_class_uid))"])
+    chk.expect(sop_tests == want_sop, "pc-query", "check_presentation_contexts", "sop-class-tests", want_sop, sop_tests)
+    rej = [x for x in H.walk(h["body"]) if H.kind(x) == "if" and norm(H.show(x[2], 5)) == "(Not(ignore_sop_class) And (pc.abstract_syntax Ne file.sop_class_uid))"]
+    chk.expect(len(rej) == 1 and "false" in H.show(rej[0][3], 4), "pc-query", "check_presentation_contexts", "other-class-is-refused", "that test leads to `return false`", [H.show(x[3], 4) for x in rej])
+    ts_tests = sorted(norm(H.show(y, 4)) for y in H.walk(h["body"]) if H.kind(y) == "bin" and y[2] in ("Eq", "Ne") and "transfer_syntax" in H.show(y[3], 3) + H.show(y[4], 3) and "pc" in H.show(y, 4))
+    want_ts = sorted(["(pc.transfer_syntax Eq file_ts.uid())", "(pc.transfer_syntax Eq EXPLICIT_VR_LITTLE_ENDIAN)", "(pc.transfer_syntax Eq IMPLICIT_VR_LITTLE_ENDIAN)"])
+    chk.expect([t for t in ts_tests if t in want_ts] == want_ts and all(" Eq " in t for t in ts_tests), "pc-query", "check_presentation_contexts", "transfer-syntax-tests",
+               want_ts + ["(ts == file_ts.uid() in the codec-free query)"], ts_tests)
+
     # ---------- into_ts
     chk.rule("into-ts", "into_ts transcodes iff the selected transfer syntax differs from the file's")
     its = fx.find_hir("dicom_storescu", lambda p: p.endswith("::into_ts"), kind="bin")
